@@ -75,15 +75,16 @@ theorem list_sum_range_comm [AddCommMonoid R] {α : Type} (L : List α) (c : Nat
 
 /-- `Sum._rmatmat`: the right-hand analogue of `sumMatmat_eq_pairs` -/
 theorem sumMatmat_right [NonUnitalNonAssocSemiring R] {α : Type} (r b c : Nat) (L : List α)
-    (act : α → MatF R → MatF R) (D : α → MatF R)
-    (h : ∀ t ∈ L, ∀ Y i j, i < b → j < c → act t Y i j = ∑ q ∈ range r, Y i q * D t q j)
+    (act : α → MatF R → MatV R) (D : α → MatF R)
+    (h : ∀ t ∈ L, ∀ Y i j, i < b → j < c → (act t Y).f i j = ∑ q ∈ range r, Y i q * D t q j)
     (X : MatF R) (i j : Nat) (hi : i < b) (hj : j < c) :
     (sumMatmat (L.map act) X).f i j
       = ∑ q ∈ range r, X i q * ((L.map D).foldr addM zeroM) q j := by
   unfold sumMatmat
-  rw [MatV.of_f, foldl_addM_apply]
+  simp only [MatV.of_f]
+  rw [foldl_addM_apply]
   simp only [zeroM, zero_add, List.map_map]
-  have h1 : (L.map ((fun m => m i j) ∘ (fun f => f X) ∘ act))
+  have h1 : (L.map ((fun m => m i j) ∘ (fun x : MatV R => x.f) ∘ (fun f => f X) ∘ act))
       = L.map (fun t => ∑ q ∈ range r, X i q * D t q j) := by
     apply List.map_congr_left
     intro t ht
